@@ -2,11 +2,14 @@
 """Print the prompt for an independent 'seeded breakage' agent for one property and create its worktree."""
 import json, os, subprocess, sys
 pid = sys.argv[1]
+rnd = int(sys.argv[2]) if len(sys.argv) > 2 else 1
+n1, n2 = 2 * rnd - 1, 2 * rnd
 p = next(json.loads(l) for l in open("/verif/properties.jsonl") if json.loads(l)["id"] == pid)
-wt = f"/tmp/seed/{pid}"
+wt = f"/tmp/seed/{pid}" if rnd == 1 else f"/tmp/seed/{pid}r{rnd}"
 if not os.path.isdir(wt):
     os.makedirs("/tmp/seed", exist_ok=True)
     subprocess.run(["git", "-C", "/repo", "worktree", "add", "-q", "--detach", wt, "HEAD"], check=True)
+extra = "" if rnd == 1 else " Other people have already tried the most obvious sites (the central function named by the property, its main boundary test, its primary loop). Look further: helper functions and error/cleanup paths that the property relies on, rarely taken branches, state that must be reset between uses, behaviour shared with a base class or a sibling class, and pairs of sites that are each fine alone. Vary what is needed to expose the change (a different kind of input, history, schedule or fault than the obvious one)."
 print(f"""You are helping to evaluate a verification effort for the Twisted networking framework (Python). Your job is to act as a realistic source of *subtle regressions*.
 
 You have your own scratch git worktree of the Twisted repository at {wt} (work ONLY there; do not read or write /repo or /verif). Run code against it with:  cd {wt} && PYTHONPATH={wt}/src /venv/bin/python ...   (the /venv interpreter otherwise imports a different checkout, so the PYTHONPATH is essential; verify with `python -c "import twisted; print(twisted.__file__)"`). Run existing tests with e.g.  cd {wt} && PYTHONPATH={wt}/src /venv/bin/python -m pytest -q -p no:cacheprovider src/twisted/<pkg>/test/test_<x>.py  . The sandbox is offline.
@@ -19,14 +22,14 @@ Here is a semantic property that Twisted is supposed to satisfy:
   quantified over: {p['quantifier']['text']}
   code involved: {', '.join(p['anchors']['files'])}
 
-Produce TWO different, independent changes to Twisted's source (under src/twisted/, not tests) that each BREAK this property while (a) the code still imports and (b) the existing test suite still passes (at the very least every test module of the touched package(s) and of src/twisted/test that exercises the touched code — run them and make sure none that passed before now fails). The two changes should attack different mechanisms/sites behind the property.
+Produce TWO different, independent changes to Twisted's source (under src/twisted/, not tests) that each BREAK this property while (a) the code still imports and (b) the existing test suite still passes (at the very least every test module of the touched package(s) and of src/twisted/test that exercises the touched code — run them and make sure none that passed before now fails). The two changes should attack different mechanisms/sites behind the property.{extra}
 
 Make them the kind of mistake a competent developer could plausibly introduce in a refactor or "optimisation" (an off-by-one at a boundary, a dropped reset or re-check, a wrong branch order, a condition that is only wrong for a rarely used path, two sites that are each fine alone), and that needs something SPECIFIC to manifest — a particular interleaving or order of operations, a fault or disconnect at a particular point, a multi-step sequence, an unusual input or boundary size, a particular segmentation of a byte stream — NOT something that ordinary use or any simple smoke test would expose at once. Do not add dead code, backdoors keyed on magic constants, or anything keyed on environment variables; keep each change small (a few lines).
 
-For each change N in (1, 2) write into {wt}/seeded/{pid}-N/ :
+For each change N in ({n1}, {n2}) write into {wt}/seeded/{pid}-N/ :
   - patch.diff : `git diff` of the change against HEAD (only that change; it must apply with `git apply` to a clean checkout),
   - demo.py    : a small standalone program (no pytest needed) that exits 0 on the unmodified code and exits non-zero (with a short message saying what went wrong) when the change is applied; it should exercise the public behaviour the property talks about, and be deterministic,
   - meta.json  : {{"property": "{pid}", "summary": "<one sentence: what the change does>", "needs": "<what specific input/sequence/schedule/fault is needed for it to manifest>", "tests_run": ["<pytest paths you ran>"], "tests_result": "<e.g. 412 passed, same as before>"}}.
-Between the two changes, restore the tree (`git checkout -- src`). Before finishing, verify for each: clean tree -> demo exits 0; patched tree -> demo exits non-zero; the relevant existing tests pass on the patched tree exactly as on the clean tree. Leave the worktree clean (`git checkout -- src`; the seeded/ directory stays). If the property is already violated by the unmodified code in some way, do not reuse that existing defect: your change must introduce a new one.
+Between the two changes, restore the tree (`git checkout -- src`). Never use `git stash` (the stash is shared with other worktrees); keep your work as patch files. Before finishing, verify for each: clean tree -> demo exits 0; patched tree -> demo exits non-zero; the relevant existing tests pass on the patched tree exactly as on the clean tree. Leave the worktree clean (`git checkout -- src`; the seeded/ directory stays). If the property is already violated by the unmodified code in some way, do not reuse that existing defect: your change must introduce a new one.
 
 Your final message: for each change, the summary, what it needs to manifest, and the test evidence. Be concise.""")
